@@ -1,6 +1,7 @@
 import RTA.Lemmas.SupplyFifo
 import RTA.Lemmas.TimerSound
 import RTA.Lemmas.TimerSoundExample
+import RTA.Lemmas.ChainSound
 import RTA.Spec.Ros2Exec
 /-! # C04 — the ECRTS'19 ROS 2 analyses are safe under reservation supply
 
@@ -18,8 +19,11 @@ compliant arrival sequences and all execution times up to the WCET:
 The executor itself is also specified as a labelled transition system
 (`RTA/Spec/Ros2Exec.lean`); that its runs satisfy the schedule-level Spec is checked on
 every run by executing it (`vlib/ros_sim.py: check_timer_legal`, cross-checked against the
-Lean LTS by the driver op `exec`), not proved; the **processing-chain** analysis is stated and
-explored only. -/
+Lean LTS by the driver op `exec`), not proved.
+* the **processing-chain** analysis (`chain_safe`): every callback instance is attributed the
+  arrival time of its chain instance; the analysis is the polling-point analysis of the last
+  callback with the chain prefix and the other chains as interference (scalar WCETs, one
+  arrival curve per chain). -/
 
 namespace RTA.C04
 open RTA RTA.Sched RTA.Spec
@@ -126,6 +130,46 @@ theorem polling_point_safe_reservation (s : Sys) (Q D P : ℕ) (hQ : 1 ≤ Q) (h
     ∀ j, j < s.n → s.task j = i → MeetsBound s j R :=
   pollingPoint_sound_reservation s Q D P hQ hQD hDP σ hσ i hl a C hwf hex hC interf hwfi hexi
     hN hcost hint limit R hR
+
+/-- C04, processing chain: `Ok(R)` of `rta_processing_chain` is never exceeded by the time from a
+source event to the completion of the last callback of the chain instance it triggers.  Every
+callback instance `k` carries as `s.arr k` the arrival time of its chain instance (source
+event); `l` is the last callback of the analysed chain; the executor facts are
+`SupplyTimerLegal` for `l` with every other callback as interference (non-preemptive; no idling
+while an arrived chain instance is incomplete; instances of `l` start in the order of their
+chain instances); `P` is the WCET of the chain prefix, `others` the demand of the other chains -/
+theorem chain_safe (s : Sys) (σ : ℕ → Bool) (l : ℕ)
+    (hl : SupplyTimerLegal s σ l (fun k => k ≠ l))
+    (sup : Supply) (hs : sup.WF) (hsbf : ∀ t d, sup.sbf d ≤ service σ t d)
+    (a : Arr) (C P : ℕ) (hwf : a.WF) (hex : a.Exact) (hC : 1 ≤ C) (hP : 1 ≤ P)
+    (others : RB) (hwfo : others.ArrWF) (hexo : others.Exact)
+    (hN : ∀ t d, countOf s l t (t + d) ≤ a.N d)
+    (hcost : ∀ k < s.n, s.task k = l → s.cost k ≤ C)
+    (hint : ∀ t d, workOf s (fun k => k ≠ l) t (t + d) ≤ (RB.rbf a (.scalar P)).need d + others.need d)
+    (limit R : ℕ)
+    (hR : rosChain sup (.rbf a (.scalar C)) (.rbf a (.scalar P)) (.rbf a (.scalar (C + P))) others limit = .ok R) :
+    ∀ j, j < s.n → s.task j = l → MeetsBound s j R :=
+  chain_sound s σ l hl sup hs hsbf a C P hwf hex hC hP others hwfo hexo hN hcost hint limit R hR
+
+theorem chain_safe_reservation (s : Sys) (Q D Pd : ℕ) (hQ : 1 ≤ Q) (hQD : Q ≤ D) (hDP : D ≤ Pd)
+    (σ : ℕ → Bool) (hσ : Compliant Q D Pd σ) (l : ℕ)
+    (hl : SupplyTimerLegal s σ l (fun k => k ≠ l))
+    (a : Arr) (C P : ℕ) (hwf : a.WF) (hex : a.Exact) (hC : 1 ≤ C) (hP : 1 ≤ P)
+    (others : RB) (hwfo : others.ArrWF) (hexo : others.Exact)
+    (hN : ∀ t d, countOf s l t (t + d) ≤ a.N d)
+    (hcost : ∀ k < s.n, s.task k = l → s.cost k ≤ C)
+    (hint : ∀ t d, workOf s (fun k => k ≠ l) t (t + d) ≤ (RB.rbf a (.scalar P)).need d + others.need d)
+    (limit R : ℕ)
+    (hR : rosChain (.constrained Q D Pd) (.rbf a (.scalar C)) (.rbf a (.scalar P)) (.rbf a (.scalar (C + P))) others limit = .ok R) :
+    ∀ j, j < s.n → s.task j = l → MeetsBound s j R :=
+  chain_sound_reservation s Q D Pd hQ hQD hDP σ hσ l hl a C P hwf hex hC hP others hwfo hexo hN hcost hint limit R hR
+
+/-- the chain analysis is the polling-point analysis of the last callback with the chain prefix
+and the other chains as interference -/
+theorem chain_is_polling_point (sup : Supply) (a : Arr) (C P : ℕ) (hC : 1 ≤ C) (others : RB) (limit : ℕ) :
+    rosChain sup (.rbf a (.scalar C)) (.rbf a (.scalar P)) (.rbf a (.scalar (C + P))) others limit =
+      rosPollingPoint sup (.rbf a (.scalar C)) (.agg [.rbf a (.scalar P), others]) limit :=
+  rosChain_eq_pollingPoint sup a C P hC others limit
 
 /-- non-vacuity of `timer_safe_reservation`: a concrete executor schedule (a higher-priority
 timer, the analysed timer, a polled callback) on a concrete (2, 4, 4) reservation with the budget
